@@ -72,14 +72,14 @@ theorem ordered_stable (le : K → K → Bool) (x : K × V) (l : List (K × V)) 
 
 /-- the same three facts for the function the model's `finish` actually prints, with the real order -/
 theorem orderedPieces_perm (p : Plan) (hp : p.le = criteriaLe p.cfg.today p.kinds p.q.orderingAsc)
-    (st : WSt) (hl : p.q.limit = 0) :
+    (st : ResSt) (hl : p.q.limit = 0) :
     (orderedPieces p st).Perm (st.buffer.map (·.2)) := by
   unfold orderedPieces
   rw [hl]
   exact ordered_perm p.le (hp ▸ criteria_total_preorder _ _ _) st.buffer
 
 theorem orderedPieces_sorted (p : Plan) (hp : p.le = criteriaLe p.cfg.today p.kinds p.q.orderingAsc)
-    (st : WSt) (hl : p.q.limit = 0) :
+    (st : ResSt) (hl : p.q.limit = 0) :
     Sorted p.le (insertAll p.le 0 st.buffer).ech.flatten :=
   ordered_sorted p.le (hp ▸ criteria_total_preorder _ _ _) st.buffer
 
